@@ -193,6 +193,8 @@ def c20(tier):
     # construction by stacking fills every per-dimension attribute of every dimension (the arrays come uninitialised)
     st.fc1(P, C)
     nl.nl4(P, C)
+    # a table built by stacking is well-formed: the stacking order is one the number of tables supports
+    vg.vg6(P, C)
     return C.finish()
 
 
@@ -608,6 +610,8 @@ def c06(tier):
     sm.fs14(P, C)
     # the strides the reader reconstructs are the row-major suffix products of the axes it installs
     st.st1(P, C, only=('read_fits_core',))
+    # ... and what the writer writes the reader accepts: no operation hands the writer a dimension with fewer than order+1 coefficients
+    vg.vg6(P, C)
     return C.finish()
 
 
